@@ -13,6 +13,9 @@ R3 never-fails   no InternalError escapes process().
 R4 continuation  the continuation markers per line type follow the
                  free-form rules and the classifier tests the sentinels
                  before the plain comment.
+R5 conservation  the written chunks are exactly the line: each dropped
+                 prefix was just written, the last remainder is written
+                 whenever it is non-empty (no dangling continuation marker).
 """
 import ast
 from sa.index import AnalysisError, loc, norm
@@ -371,7 +374,68 @@ def check_process(idx, run):
                   "the wrapping loop does not end by dropping the emitted "
                   "prefix (line = line[break_point:]): it may not "
                   "terminate", loc(mod, loop))
+    check_conservation(run, mod, func, bp_defs)
     return func, emits
+
+
+def check_conservation(run, mod, func, bp_defs):
+    """R5: the chunks written are the whole line: every `line = line[bp:]`
+    directly follows an append of `line[:bp]` with the same break point, and
+    the final remainder is written whenever it is non-empty."""
+    cons = "FortLineLength.process"
+
+    def blocks(stmts):
+        yield stmts
+        for stmt in stmts:
+            for field in ("body", "orelse", "finalbody"):
+                sub = getattr(stmt, field, None)
+                if isinstance(sub, list) and sub and \
+                        isinstance(sub[0], ast.stmt):
+                    yield from blocks(sub)
+            for hnd in getattr(stmt, "handlers", []):
+                yield from blocks(hnd.body)
+    nadv = 0
+    for block in blocks(func.body):
+        for pos, stmt in enumerate(block):
+            if isinstance(stmt, ast.Assign) and \
+                    ast.unparse(stmt.targets[0]) == "line" and \
+                    isinstance(stmt.value, ast.Subscript) and \
+                    isinstance(stmt.value.slice, ast.Slice) and \
+                    stmt.value.slice.upper is None and \
+                    stmt.value.slice.lower is not None:
+                nadv += 1
+                var = ast.unparse(stmt.value.slice.lower)
+                prev = block[pos - 1] if pos else None
+                ok = prev is not None and isinstance(prev, ast.AugAssign) \
+                    and f"line[:{var}]" in ast.unparse(prev.value)
+                run.check("C18.R5", ok, cons,
+                          f"emit line[:{var}] then drop it",
+                          f"'line = line[{var}:]' does not directly follow "
+                          f"an append of 'line[:{var}]': characters of the "
+                          f"input line are lost or duplicated",
+                          loc(mod, stmt))
+    run.floor("prefix-drop statements", nadv, 2)
+    # final remainder
+    finals = [s for s in ast.walk(func) if isinstance(s, ast.AugAssign) and
+              ast.unparse(s.target) == "fortran_out" and
+              ast.unparse(s.value) in ("c_start + line + '\\n'",)]
+    ok = False
+    for fin in finals:
+        guards = [g for g in ast.walk(func) if isinstance(g, ast.If) and
+                  fin in g.body]
+        if not guards:
+            ok = True
+        for guard in guards:
+            ok = ast.unparse(guard.test) in ("line", "len(line) > 0",
+                                             "line != ''", "len(line)")
+    run.check("C18.R5", bool(finals) and ok, cons,
+              "the remainder after the last break is always written",
+              "the last chunk of a wrapped line is written only under a "
+              "condition other than 'non-empty': the previous line already "
+              "ends in a continuation marker, so dropping the remainder "
+              "(e.g. trailing blanks) leaves a dangling '&' that swallows "
+              "the next statement", loc(mod, finals[0]) if finals else
+              loc(mod, func))
 
 
 def max_aff(affs):
@@ -571,16 +635,38 @@ def check_tables(idx, run):
             regs[ast.unparse(stmt.targets[0])] = (
                 stmt.value.args[0].value,
                 [ast.unparse(k.value) for k in stmt.value.keywords])
-    want = {"self._omp": r"^\s*!\$OMP", "self._acc": r"^\s*!\$ACC",
-            "self._comment": r"^\s*!"}
-    for name, pat in want.items():
+    import re as _re
+    witnesses = {
+        "self._omp": (["!$omp parallel do", "  !$OMP& private(i)",
+                       "!$omp&shared(a)", "\t!$Omp end parallel"],
+                      ["!$acc loop", "! a comment", "x = 1 !$omp", "!omp"]),
+        "self._acc": (["!$acc parallel", "   !$ACC& copyin(a)",
+                       "!$acc&present(b)"],
+                      ["!$omp do", "! comment", "y = 2 !$acc"]),
+        "self._comment": (["! text", "   !text", "!$omp do", "!& more"],
+                          ["x = 1 ! trailing", "call f()"]),
+    }
+    for name, (must, must_not) in witnesses.items():
         got = regs.get(name)
-        okr = got is not None and got[0] == pat and (
-            name == "self._comment" or "re.I" in got[1])
+        okr = False
+        why = "pattern not found"
+        if got is not None:
+            flags = _re.I if "re.I" in got[1] or "re.IGNORECASE" in got[1] \
+                else 0
+            try:
+                comp = _re.compile(got[0], flags)
+                missed = [w for w in must if not comp.match(w)]
+                wrong = [w for w in must_not if comp.match(w)]
+                okr = not missed and not wrong
+                why = f"does not match {missed}; wrongly matches {wrong}"
+            except _re.error as err:
+                why = f"invalid pattern: {err}"
         run.check("C18.R4", okr, "FortLineLength.__init__",
                   f"pattern {name}",
-                  f"{name} is {got}; expected {pat!r}"
-                  f"{'' if name == 'self._comment' else ' (case-insensitive)'}",
+                  f"the pattern {name} = {got[0] if got else None!r} {why}: "
+                  f"directive sentinels (including the continuation form "
+                  f"'!$omp&' / '!$acc&') must be classified as directives, "
+                  f"anything starting with '!' as a comment",
                   loc(mod, init))
     # classifier uses the matching regex for each type
     pairs = {t: c for c, t in order}
